@@ -101,6 +101,20 @@ def copy_nonoverlapping (c : Cfg) (src dst n : Nat) (s : VW) : VW × Outcome Uni
 def copy_in (c : Cfg) (src : List (Option Elem)) (dst n : Nat) (s : VW) : VW × Outcome Unit :=
   (s.1.copyFrom c (src.take n) dst s.2, .ok ())
 
+/-- `let mut v = Vec::new_in(..)` / `Vec::with_capacity_in(n, ..)` in a function that builds a vector: from here on the threaded
+vector is the new one -/
+def new_vec (o : Outcome VS) (s : VW) : VW × Outcome Unit :=
+  match o with
+  | .ok v => ((v, s.2), .ok ())
+  | .panic => (s, .panic)
+  | .err => (s, .err)
+  | .bad w => (s, .bad w)
+  | .envBad => (s, .envBad)
+
+/-- `Drop for Vec` while unwinding: the elements it holds are dropped (the buffer goes back to the arena, which the vector model
+does not see) -/
+def drop_vec (c : Cfg) (s : VW) : VW := (s.1, (dropVec c s.1 s.2).1)
+
 /-- `iter.next()` on an iterator the frame holds by value (`none` = it panicked) -/
 def it_next (c : Cfg) (it : It) (s : VW) : VW × It × Option (Option Elem) :=
   let r := It.next c s.2 it
